@@ -63,6 +63,12 @@ def run_check(tier):
             if rp['rc'] == 3 or rp['rc'] < 0: out.add_violation(sig, '%s fails: %s' % (r['name'], desc), path, (rp['out'] + rp['err'])[-400:])
             else: out.errors.append('%s: %s -- found by CBMC, not reproduced by the concrete replay (%s)' % (r['name'], desc, path))
         else: out.errors.append('%s: %s %s' % (r['name'], r['verdict'], r['err'][-160:].strip().replace('\n', ' ')))
+    # card-capacity boundary of string writes (E2 on the table harness shared with C20): CBMC runs out of memory on 58-character values
+    import c20
+    kc = [c20.case('C16', 'keylimits', [1], [0], 1)]
+    kout = Outcome.__new__(Outcome); kout.__dict__.update(pid='C16', tier=tier, t0=out.t0, violations=out.violations, errors=out.errors, cov=dict(out.cov), assumptions=[])
+    c20.evaluate(kout, 'C16', kc)
+    out.cov['obligations'] += kout.cov['obligations'] - out.cov['obligations']; out.cov['discharged'] += kout.cov['discharged'] - out.cov['discharged']; out.cov['card_limit_cases'] = 'key lengths 1, 8, 9, 10, 21, 30 x value length at the card limit and one above (E2, concrete lengths)'
     out.cov['remove_key_instantiates'] = has_remove
     if pr['rc'] != 0:
         path = os.path.join(VERIF, 'replay', 'C16-remove-key-does-not-compile.txt'); open(path, 'w').write(pr['err'][-3000:])
@@ -84,4 +90,6 @@ def replay_binary():
         out = os.path.join(d, 'replay_aux'); run(['g++'] + GXX_FLAGS + ['-I' + VERIF + '/harness', VERIF + '/harness/replay_aux.cpp', '-o', out] + ref + ['-lcfitsio', '-lm']); return out
     return once('replay_aux', build)
 def replay(path):
+    if open(path).read().startswith('state '):
+        import c20; return c20.replay(path)
     r = run([replay_binary(), path], check=False, timeout=120); print(r['out'] + r['err']); return 1 if r['rc'] != 0 else 0
